@@ -9,6 +9,11 @@ import DateutilVerif.Proofs.ParserFuzzy
 import DateutilVerif.Proofs.ParserFuzzySyn
 import DateutilVerif.Proofs.Calendar
 import DateutilVerif.Proofs.Time
+import DateutilVerif.Proofs.RenderGenA
+import DateutilVerif.Proofs.RenderGenB
+import DateutilVerif.Proofs.RenderGenC
+import DateutilVerif.Proofs.RenderGenD
+import DateutilVerif.Proofs.RenderGenE
 
 namespace C15
 open PM Py
@@ -648,5 +653,224 @@ theorem fuzzy_extends_strict_one_marker_partial (cls : Char → CClass) (df yf :
 /-- the count is 1 for an ordinary 12-hour text and 2 at the D-C15 witness -/
 example : ampmCount (Info.default false false 2024 2000) (lex asciiCls "Sep 25 2003 10:30 pm".toList) = 1 := by decide +kernel
 example : ampmCount (Info.default false false 2024 2000) (lex asciiCls "10:30 am pm".toList) = 2 := by decide +kernel
+
+/-! ### a sentence containing one date
+
+  The class of sentences is DECIDABLE: any number of filler words (`PM.fillerWord`: ASCII letters; not `inf`/`nan`/`infinity`; in no
+  stock parserinfo table; not shaped like a zone abbreviation), each followed by a space; one rendering from the C02 schema templates
+  (`PT.sentenceTemplates`: 17 ids, every valid datetime); any number of filler words, each after a space.  `PM.SentenceAnswer`
+  (Proofs/RenderSentence.lean) says: `parse(…, fuzzy=True)` and `parse(…, fuzzy_with_tokens=True)` return the datetime the rendering
+  alone parses to (naive), and the token tuple is `_recombine_skipped` of a list of skipped indices that contains every token of the
+  words in front and behind.  Proof: the scan over ANY number of filler tokens is an induction (`PM.inert_seg`); the scan over the
+  rendering at ANY position of the token list is the symbolic run of C02 with a symbolic prefix (`PM.runp_*`). -/
+
+open PT in
+/-- what `SentenceAnswer` says about the TEXT that comes back: the tokens' characters, read one after the other, are the skipped
+    tokens in ascending token index, nothing lost or added — and every filler token is among them -/
+theorem sentence_tokens_text (cls : Char → CClass) (info : Info) (o : Opts) (tznames : List Token) (tzi : TzInfos) (dflt : DT)
+    (text : List Char) (dt : DT) (a b : Nat) (h : SentenceAnswer cls info o tznames tzi dflt text dt a b) :
+    ∃ (toks : List Token) (sk : List Nat),
+      parse cls info o tznames tzi dflt text = .ok { dt := dt, tz := .naive, tokens := if o.fuzzyWithTokens then some toks else none } ∧
+      toks.flatten = ((sk.mergeSort (· ≤ ·)).filterMap ((lex cls text)[·]?)).flatten ∧
+      (sk.mergeSort (· ≤ ·)).Pairwise (· ≤ ·) ∧
+      (∀ i, (i < a ∨ (b ≤ i ∧ i < (lex cls text).length)) → i ∈ sk) := by
+  obtain ⟨toks, sk, hre, hall, hp⟩ := h
+  have := fuzzy_tokens_in_order (lex cls text) sk toks hre
+  exact ⟨toks, sk, hp, this.1, this.2, hall⟩
+
+/-- non-vacuity: `Today is 2003-09-25 10h49m41s sharp` -/
+example : fillerWord "Today".toList = true ∧ fillerWord "is".toList = true ∧ fillerWord "sharp".toList = true ∧
+    fillerWord "at".toList = true ∧ fillerWord "EST".toList = false ∧ fillerWord "nan".toList = false ∧ fillerWord "Monday".toList = false := by
+  decide +kernel
+example : parse asciiCls (Info.default false false 2024 2000) { fuzzy := true } [] .absent ⟨2001, 1, 1, 0, 0, 0, 0⟩
+    (leadChars ["Today".toList, "is".toList] ++ PT.str_hms_letters ⟨2003, 9, 25, 10, 49, 41, 0⟩ (fillerChars ["sharp".toList])) =
+      .ok ⟨⟨2003, 9, 25, 10, 49, 41, 0⟩, .naive, none⟩ := by decide +kernel
+example : leadChars ["Today".toList, "is".toList] ++ PT.str_hms_letters ⟨2003, 9, 25, 10, 49, 41, 0⟩ (fillerChars ["sharp".toList]) =
+    "Today is 2003-09-25 10h49m41s sharp".toList := by decide +kernel
+
+-- BEGIN GENERATED SENTENCE INDEX (tools_local/gen_templates.py)
+/-- the sentence theorem a template id stands for (`False` for an id without one) -/
+def SentenceThm (id : String) : Prop :=
+  if id = "us_slash" then
+    (∀ (cls : Char → CClass) [AsciiOK cls] (yf : Bool) (year century : Int) (o : Opts) (tznames : List Token) (tzi : TzInfos)
+      (hf : (o.fuzzy || o.fuzzyWithTokens) = true) (htz1 : tzi.applies none = false) (htz2 : tzi.applies (some ['U', 'T', 'C']) = false)
+      (hdf : o.dayfirst.getD false = false) (hyf : o.yearfirst.getD yf = false) (t dflt : DT) (ht : t.Valid) (hdv : dflt.Valid) (lead ws : List Token) (hlead : ∀ w ∈ lead, fillerWord w = true) (hws : ∀ w ∈ ws, fillerWord w = true),
+      SentenceAnswer cls (Info.default false yf year century) o tznames tzi dflt (leadChars lead ++ PT.str_us_slash t (fillerChars ws)) ({ t with us := 0 })
+        (leadToks lead).length ((leadToks lead).length + 11))
+  else if id = "eu_slash" then
+    (∀ (cls : Char → CClass) [AsciiOK cls] (yf : Bool) (year century : Int) (o : Opts) (tznames : List Token) (tzi : TzInfos)
+      (hf : (o.fuzzy || o.fuzzyWithTokens) = true) (htz1 : tzi.applies none = false) (htz2 : tzi.applies (some ['U', 'T', 'C']) = false)
+      (hdf : o.dayfirst.getD false = true) (hyf : o.yearfirst.getD yf = false) (t dflt : DT) (ht : t.Valid) (hdv : dflt.Valid) (lead ws : List Token) (hlead : ∀ w ∈ lead, fillerWord w = true) (hws : ∀ w ∈ ws, fillerWord w = true),
+      SentenceAnswer cls (Info.default false yf year century) o tznames tzi dflt (leadChars lead ++ PT.str_eu_slash t (fillerChars ws)) ({ t with us := 0 })
+        (leadToks lead).length ((leadToks lead).length + 11))
+  else if id = "yf_slash" then
+    (∀ (cls : Char → CClass) [AsciiOK cls] (yf : Bool) (year century : Int) (o : Opts) (tznames : List Token) (tzi : TzInfos)
+      (hf : (o.fuzzy || o.fuzzyWithTokens) = true) (htz1 : tzi.applies none = false) (htz2 : tzi.applies (some ['U', 'T', 'C']) = false)
+      (hdf : o.dayfirst.getD false = false) (t dflt : DT) (ht : t.Valid) (hdv : dflt.Valid) (lead ws : List Token) (hlead : ∀ w ∈ lead, fillerWord w = true) (hws : ∀ w ∈ ws, fillerWord w = true),
+      SentenceAnswer cls (Info.default false yf year century) o tznames tzi dflt (leadChars lead ++ PT.str_yf_slash t (fillerChars ws)) ({ t with us := 0 })
+        (leadToks lead).length ((leadToks lead).length + 11))
+  else if id = "eu_yy" then
+    (∀ (cls : Char → CClass) [AsciiOK cls] (yf : Bool) (year century : Int) (o : Opts) (tznames : List Token) (tzi : TzInfos)
+      (hf : (o.fuzzy || o.fuzzyWithTokens) = true) (htz1 : tzi.applies none = false) (htz2 : tzi.applies (some ['U', 'T', 'C']) = false)
+      (hdf : o.dayfirst.getD false = true) (hyf : o.yearfirst.getD yf = false) (t dflt : DT) (ht : t.Valid) (hdv : dflt.Valid) (hwin : Gen.convertyear ⟨century, year⟩ (t.y % 100) false = .ok t.y) (lead ws : List Token) (hlead : ∀ w ∈ lead, fillerWord w = true) (hws : ∀ w ∈ ws, fillerWord w = true),
+      SentenceAnswer cls (Info.default false yf year century) o tznames tzi dflt (leadChars lead ++ PT.str_eu_yy t (fillerChars ws)) ({ t with ss := dflt.ss, us := dflt.us })
+        (leadToks lead).length ((leadToks lead).length + 9))
+  else if id = "hms_letters" then
+    (∀ (cls : Char → CClass) [AsciiOK cls] (yf : Bool) (year century : Int) (o : Opts) (tznames : List Token) (tzi : TzInfos)
+      (hf : (o.fuzzy || o.fuzzyWithTokens) = true) (htz1 : tzi.applies none = false) (htz2 : tzi.applies (some ['U', 'T', 'C']) = false)
+      (hdf : o.dayfirst.getD false = false) (t dflt : DT) (ht : t.Valid) (hdv : dflt.Valid) (lead ws : List Token) (hlead : ∀ w ∈ lead, fillerWord w = true) (hws : ∀ w ∈ ws, fillerWord w = true),
+      SentenceAnswer cls (Info.default false yf year century) o tznames tzi dflt (leadChars lead ++ PT.str_hms_letters t (fillerChars ws)) ({ t with us := 0 })
+        (leadToks lead).length ((leadToks lead).length + 12))
+  else if id = "hm_letters" then
+    (∀ (cls : Char → CClass) [AsciiOK cls] (yf : Bool) (year century : Int) (o : Opts) (tznames : List Token) (tzi : TzInfos)
+      (hf : (o.fuzzy || o.fuzzyWithTokens) = true) (htz1 : tzi.applies none = false) (htz2 : tzi.applies (some ['U', 'T', 'C']) = false)
+      (hdf : o.dayfirst.getD false = false) (t dflt : DT) (ht : t.Valid) (hdv : dflt.Valid) (lead ws : List Token) (hlead : ∀ w ∈ lead, fillerWord w = true) (hws : ∀ w ∈ ws, fillerWord w = true),
+      SentenceAnswer cls (Info.default false yf year century) o tznames tzi dflt (leadChars lead ++ PT.str_hm_letters t (fillerChars ws)) ({ t with ss := dflt.ss, us := dflt.us })
+        (leadToks lead).length ((leadToks lead).length + 10))
+  else if id = "ampm_short" then
+    (∀ (cls : Char → CClass) [AsciiOK cls] (yf : Bool) (year century : Int) (o : Opts) (tznames : List Token) (tzi : TzInfos)
+      (hf : (o.fuzzy || o.fuzzyWithTokens) = true) (htz1 : tzi.applies none = false) (htz2 : tzi.applies (some ['U', 'T', 'C']) = false)
+      (hdf : o.dayfirst.getD false = false) (t dflt : DT) (ht : t.Valid) (hdv : dflt.Valid) (lead ws : List Token) (hlead : ∀ w ∈ lead, fillerWord w = true) (hws : ∀ w ∈ ws, fillerWord w = true),
+      SentenceAnswer cls (Info.default false yf year century) o tznames tzi dflt (leadChars lead ++ PT.str_ampm_short t (fillerChars ws)) ({ t with ss := dflt.ss, us := dflt.us })
+        (leadToks lead).length ((leadToks lead).length + 10))
+  else if id = "ampm_hour" then
+    (∀ (cls : Char → CClass) [AsciiOK cls] (yf : Bool) (year century : Int) (o : Opts) (tznames : List Token) (tzi : TzInfos)
+      (hf : (o.fuzzy || o.fuzzyWithTokens) = true) (htz1 : tzi.applies none = false) (htz2 : tzi.applies (some ['U', 'T', 'C']) = false)
+      (hdf : o.dayfirst.getD false = false) (t dflt : DT) (ht : t.Valid) (hdv : dflt.Valid) (lead ws : List Token) (hlead : ∀ w ∈ lead, fillerWord w = true) (hws : ∀ w ∈ ws, fillerWord w = true),
+      SentenceAnswer cls (Info.default false yf year century) o tznames tzi dflt (leadChars lead ++ PT.str_ampm_hour t (fillerChars ws)) ({ t with mm := dflt.mm, ss := dflt.ss, us := dflt.us })
+        (leadToks lead).length ((leadToks lead).length + 9))
+  else if id = "ampm_hour_tight" then
+    (∀ (cls : Char → CClass) [AsciiOK cls] (yf : Bool) (year century : Int) (o : Opts) (tznames : List Token) (tzi : TzInfos)
+      (hf : (o.fuzzy || o.fuzzyWithTokens) = true) (htz1 : tzi.applies none = false) (htz2 : tzi.applies (some ['U', 'T', 'C']) = false)
+      (hdf : o.dayfirst.getD false = false) (t dflt : DT) (ht : t.Valid) (hdv : dflt.Valid) (lead ws : List Token) (hlead : ∀ w ∈ lead, fillerWord w = true) (hws : ∀ w ∈ ws, fillerWord w = true),
+      SentenceAnswer cls (Info.default false yf year century) o tznames tzi dflt (leadChars lead ++ PT.str_ampm_hour_tight t (fillerChars ws)) ({ t with mm := dflt.mm, ss := dflt.ss, us := dflt.us })
+        (leadToks lead).length ((leadToks lead).length + 8))
+  else if id = "ampm_hms_sp" then
+    (∀ (cls : Char → CClass) [AsciiOK cls] (yf : Bool) (year century : Int) (o : Opts) (tznames : List Token) (tzi : TzInfos)
+      (hf : (o.fuzzy || o.fuzzyWithTokens) = true) (htz1 : tzi.applies none = false) (htz2 : tzi.applies (some ['U', 'T', 'C']) = false)
+      (hdf : o.dayfirst.getD false = false) (t dflt : DT) (ht : t.Valid) (hdv : dflt.Valid) (lead ws : List Token) (hlead : ∀ w ∈ lead, fillerWord w = true) (hws : ∀ w ∈ ws, fillerWord w = true),
+      SentenceAnswer cls (Info.default false yf year century) o tznames tzi dflt (leadChars lead ++ PT.str_ampm_hms_sp t (fillerChars ws)) ({ t with us := 0 })
+        (leadToks lead).length ((leadToks lead).length + 13))
+  else if id = "dd-Mon-Y_hm" then
+    (∀ (cls : Char → CClass) [AsciiOK cls] (yf : Bool) (year century : Int) (o : Opts) (tznames : List Token) (tzi : TzInfos)
+      (hf : (o.fuzzy || o.fuzzyWithTokens) = true) (htz1 : tzi.applies none = false) (htz2 : tzi.applies (some ['U', 'T', 'C']) = false)
+       (t dflt : DT) (ht : t.Valid) (hdv : dflt.Valid) (lead ws : List Token) (hlead : ∀ w ∈ lead, fillerWord w = true) (hws : ∀ w ∈ ws, fillerWord w = true),
+      SentenceAnswer cls (Info.default false yf year century) o tznames tzi dflt (leadChars lead ++ PT.str_dd_Mon_Y_hm t (fillerChars ws)) ({ t with ss := dflt.ss, us := dflt.us })
+        (leadToks lead).length ((leadToks lead).length + 9))
+  else if id = "d_Month_Y_hm" then
+    (∀ (cls : Char → CClass) [AsciiOK cls] (yf : Bool) (year century : Int) (o : Opts) (tznames : List Token) (tzi : TzInfos)
+      (hf : (o.fuzzy || o.fuzzyWithTokens) = true) (htz1 : tzi.applies none = false) (htz2 : tzi.applies (some ['U', 'T', 'C']) = false)
+      (hyf : o.yearfirst.getD yf = false) (t dflt : DT) (ht : t.Valid) (hdv : dflt.Valid) (hy : 100 ≤ t.y) (lead ws : List Token) (hlead : ∀ w ∈ lead, fillerWord w = true) (hws : ∀ w ∈ ws, fillerWord w = true),
+      SentenceAnswer cls (Info.default false yf year century) o tznames tzi dflt (leadChars lead ++ PT.str_d_Month_Y_hm t (fillerChars ws)) ({ t with ss := dflt.ss, us := dflt.us })
+        (leadToks lead).length ((leadToks lead).length + 9))
+  else if id = "Mon_d_Y_hms" then
+    (∀ (cls : Char → CClass) [AsciiOK cls] (yf : Bool) (year century : Int) (o : Opts) (tznames : List Token) (tzi : TzInfos)
+      (hf : (o.fuzzy || o.fuzzyWithTokens) = true) (htz1 : tzi.applies none = false) (htz2 : tzi.applies (some ['U', 'T', 'C']) = false)
+       (t dflt : DT) (ht : t.Valid) (hdv : dflt.Valid) (hy : 100 ≤ t.y) (lead ws : List Token) (hlead : ∀ w ∈ lead, fillerWord w = true) (hws : ∀ w ∈ ws, fillerWord w = true),
+      SentenceAnswer cls (Info.default false yf year century) o tznames tzi dflt (leadChars lead ++ PT.str_Mon_d_Y_hms t (fillerChars ws)) ({ t with us := 0 })
+        (leadToks lead).length ((leadToks lead).length + 11))
+  else if id = "compact_T_s" then
+    (∀ (cls : Char → CClass) [AsciiOK cls] (yf : Bool) (year century : Int) (o : Opts) (tznames : List Token) (tzi : TzInfos)
+      (hf : (o.fuzzy || o.fuzzyWithTokens) = true) (htz1 : tzi.applies none = false) (htz2 : tzi.applies (some ['U', 'T', 'C']) = false)
+      (hdf : o.dayfirst.getD false = false) (t dflt : DT) (ht : t.Valid) (hdv : dflt.Valid) (lead ws : List Token) (hlead : ∀ w ∈ lead, fillerWord w = true) (hws : ∀ w ∈ ws, fillerWord w = true),
+      SentenceAnswer cls (Info.default false yf year century) o tznames tzi dflt (leadChars lead ++ PT.str_compact_T_s t (fillerChars ws)) ({ t with us := 0 })
+        (leadToks lead).length ((leadToks lead).length + 3))
+  else if id = "compact_nosep_s" then
+    (∀ (cls : Char → CClass) [AsciiOK cls] (yf : Bool) (year century : Int) (o : Opts) (tznames : List Token) (tzi : TzInfos)
+      (hf : (o.fuzzy || o.fuzzyWithTokens) = true) (htz1 : tzi.applies none = false) (htz2 : tzi.applies (some ['U', 'T', 'C']) = false)
+      (hdf : o.dayfirst.getD false = false) (t dflt : DT) (ht : t.Valid) (hdv : dflt.Valid) (lead ws : List Token) (hlead : ∀ w ∈ lead, fillerWord w = true) (hws : ∀ w ∈ ws, fillerWord w = true),
+      SentenceAnswer cls (Info.default false yf year century) o tznames tzi dflt (leadChars lead ++ PT.str_compact_nosep_s t (fillerChars ws)) ({ t with us := dflt.us })
+        (leadToks lead).length ((leadToks lead).length + 1))
+  else if id = "compact_T_min" then
+    (∀ (cls : Char → CClass) [AsciiOK cls] (yf : Bool) (year century : Int) (o : Opts) (tznames : List Token) (tzi : TzInfos)
+      (hf : (o.fuzzy || o.fuzzyWithTokens) = true) (htz1 : tzi.applies none = false) (htz2 : tzi.applies (some ['U', 'T', 'C']) = false)
+      (hdf : o.dayfirst.getD false = false) (t dflt : DT) (ht : t.Valid) (hdv : dflt.Valid) (lead ws : List Token) (hlead : ∀ w ∈ lead, fillerWord w = true) (hws : ∀ w ∈ ws, fillerWord w = true),
+      SentenceAnswer cls (Info.default false yf year century) o tznames tzi dflt (leadChars lead ++ PT.str_compact_T_min t (fillerChars ws)) ({ t with ss := dflt.ss, us := dflt.us })
+        (leadToks lead).length ((leadToks lead).length + 3))
+  else if id = "compact_nosep_min" then
+    (∀ (cls : Char → CClass) [AsciiOK cls] (yf : Bool) (year century : Int) (o : Opts) (tznames : List Token) (tzi : TzInfos)
+      (hf : (o.fuzzy || o.fuzzyWithTokens) = true) (htz1 : tzi.applies none = false) (htz2 : tzi.applies (some ['U', 'T', 'C']) = false)
+      (hdf : o.dayfirst.getD false = false) (t dflt : DT) (ht : t.Valid) (hdv : dflt.Valid) (lead ws : List Token) (hlead : ∀ w ∈ lead, fillerWord w = true) (hws : ∀ w ∈ ws, fillerWord w = true),
+      SentenceAnswer cls (Info.default false yf year century) o tznames tzi dflt (leadChars lead ++ PT.str_compact_nosep_min t (fillerChars ws)) ({ t with ss := dflt.ss, us := dflt.us })
+        (leadToks lead).length ((leadToks lead).length + 1))
+  else False
+
+set_option maxHeartbeats 4000000 in
+/-- **every id in `PT.sentenceTemplates` (printed into the evidence through the `parser.sentences` op) has its sentence theorem**:
+    for any number of filler words in front of and behind the rendering, `fuzzy` / `fuzzy_with_tokens` return the datetime of the
+    rendering alone, and the token tuple is `_recombine_skipped` of indices containing every filler token. -/
+theorem sentence_templates_have_theorems : ∀ p ∈ PT.sentenceTemplates, SentenceThm p := by
+  intro p hp
+  simp only [PT.sentenceTemplates, List.mem_cons, List.mem_nil_iff, or_false] at hp
+  rcases hp with rfl | rfl | rfl | rfl | rfl | rfl | rfl | rfl | rfl | rfl | rfl | rfl | rfl | rfl | rfl | rfl | rfl
+  · show SentenceThm "us_slash"
+    simp only [SentenceThm]
+    exact fun cls _ yf year century o tznames tzi hf htz1 htz2 hdf hyf t dflt ht hdv lead ws hlead hws =>
+      sentence_us_slash cls yf year century o tznames tzi hf htz1 htz2 hdf hyf t dflt ht hdv lead ws hlead hws
+  · show SentenceThm "eu_slash"
+    simp only [SentenceThm]
+    exact fun cls _ yf year century o tznames tzi hf htz1 htz2 hdf hyf t dflt ht hdv lead ws hlead hws =>
+      sentence_eu_slash cls yf year century o tznames tzi hf htz1 htz2 hdf hyf t dflt ht hdv lead ws hlead hws
+  · show SentenceThm "yf_slash"
+    simp only [SentenceThm]
+    exact fun cls _ yf year century o tznames tzi hf htz1 htz2 hdf t dflt ht hdv lead ws hlead hws =>
+      sentence_yf_slash cls yf year century o tznames tzi hf htz1 htz2 hdf t dflt ht hdv lead ws hlead hws
+  · show SentenceThm "eu_yy"
+    simp only [SentenceThm]
+    exact fun cls _ yf year century o tznames tzi hf htz1 htz2 hdf hyf t dflt ht hdv hwin lead ws hlead hws =>
+      sentence_eu_yy cls yf year century o tznames tzi hf htz1 htz2 hdf hyf t dflt ht hdv hwin lead ws hlead hws
+  · show SentenceThm "hms_letters"
+    simp only [SentenceThm]
+    exact fun cls _ yf year century o tznames tzi hf htz1 htz2 hdf t dflt ht hdv lead ws hlead hws =>
+      sentence_hms_letters cls yf year century o tznames tzi hf htz1 htz2 hdf t dflt ht hdv lead ws hlead hws
+  · show SentenceThm "hm_letters"
+    simp only [SentenceThm]
+    exact fun cls _ yf year century o tznames tzi hf htz1 htz2 hdf t dflt ht hdv lead ws hlead hws =>
+      sentence_hm_letters cls yf year century o tznames tzi hf htz1 htz2 hdf t dflt ht hdv lead ws hlead hws
+  · show SentenceThm "ampm_short"
+    simp only [SentenceThm]
+    exact fun cls _ yf year century o tznames tzi hf htz1 htz2 hdf t dflt ht hdv lead ws hlead hws =>
+      sentence_ampm_short cls yf year century o tznames tzi hf htz1 htz2 hdf t dflt ht hdv lead ws hlead hws
+  · show SentenceThm "ampm_hour"
+    simp only [SentenceThm]
+    exact fun cls _ yf year century o tznames tzi hf htz1 htz2 hdf t dflt ht hdv lead ws hlead hws =>
+      sentence_ampm_hour cls yf year century o tznames tzi hf htz1 htz2 hdf t dflt ht hdv lead ws hlead hws
+  · show SentenceThm "ampm_hour_tight"
+    simp only [SentenceThm]
+    exact fun cls _ yf year century o tznames tzi hf htz1 htz2 hdf t dflt ht hdv lead ws hlead hws =>
+      sentence_ampm_hour_tight cls yf year century o tznames tzi hf htz1 htz2 hdf t dflt ht hdv lead ws hlead hws
+  · show SentenceThm "ampm_hms_sp"
+    simp only [SentenceThm]
+    exact fun cls _ yf year century o tznames tzi hf htz1 htz2 hdf t dflt ht hdv lead ws hlead hws =>
+      sentence_ampm_hms_sp cls yf year century o tznames tzi hf htz1 htz2 hdf t dflt ht hdv lead ws hlead hws
+  · show SentenceThm "dd-Mon-Y_hm"
+    simp only [SentenceThm]
+    exact fun cls _ yf year century o tznames tzi hf htz1 htz2  t dflt ht hdv lead ws hlead hws =>
+      sentence_dd_Mon_Y_hm cls yf year century o tznames tzi hf htz1 htz2  t dflt ht hdv lead ws hlead hws
+  · show SentenceThm "d_Month_Y_hm"
+    simp only [SentenceThm]
+    exact fun cls _ yf year century o tznames tzi hf htz1 htz2 hyf t dflt ht hdv hy lead ws hlead hws =>
+      sentence_d_Month_Y_hm cls yf year century o tznames tzi hf htz1 htz2 hyf t dflt ht hdv hy lead ws hlead hws
+  · show SentenceThm "Mon_d_Y_hms"
+    simp only [SentenceThm]
+    exact fun cls _ yf year century o tznames tzi hf htz1 htz2  t dflt ht hdv hy lead ws hlead hws =>
+      sentence_Mon_d_Y_hms cls yf year century o tznames tzi hf htz1 htz2  t dflt ht hdv hy lead ws hlead hws
+  · show SentenceThm "compact_T_s"
+    simp only [SentenceThm]
+    exact fun cls _ yf year century o tznames tzi hf htz1 htz2 hdf t dflt ht hdv lead ws hlead hws =>
+      sentence_compact_T_s cls yf year century o tznames tzi hf htz1 htz2 hdf t dflt ht hdv lead ws hlead hws
+  · show SentenceThm "compact_nosep_s"
+    simp only [SentenceThm]
+    exact fun cls _ yf year century o tznames tzi hf htz1 htz2 hdf t dflt ht hdv lead ws hlead hws =>
+      sentence_compact_nosep_s cls yf year century o tznames tzi hf htz1 htz2 hdf t dflt ht hdv lead ws hlead hws
+  · show SentenceThm "compact_T_min"
+    simp only [SentenceThm]
+    exact fun cls _ yf year century o tznames tzi hf htz1 htz2 hdf t dflt ht hdv lead ws hlead hws =>
+      sentence_compact_T_min cls yf year century o tznames tzi hf htz1 htz2 hdf t dflt ht hdv lead ws hlead hws
+  · show SentenceThm "compact_nosep_min"
+    simp only [SentenceThm]
+    exact fun cls _ yf year century o tznames tzi hf htz1 htz2 hdf t dflt ht hdv lead ws hlead hws =>
+      sentence_compact_nosep_min cls yf year century o tznames tzi hf htz1 htz2 hdf t dflt ht hdv lead ws hlead hws
+-- END GENERATED SENTENCE INDEX
 
 end C15
